@@ -155,6 +155,10 @@ PATH_RULES = [
     (r'\bstd::cmp::Ordering\b', 'Ordering'),
     (r'\bbytes::(BytesMut|Bytes|Buf|BufMut)\b', r'\1'),
     (r'\bdigest::DynDigest\b', 'DynDigest'),
+    (r'\bu(16|32|64)::from_be_bytes\b', r'u\1_from_be_bytes'),
+    (r'::std::cmp::min\b', 'std_cmp_min'),
+    (r'\bstd::cmp::min\b', 'std_cmp_min'),
+    (r'\bcmp::min\b', 'std_cmp_min'),
     (r'\bbyteorder::(BigEndian|LittleEndian|ReadBytesExt|WriteBytesExt)\b', r'\1'),
 ]
 
@@ -207,6 +211,34 @@ def _byte_strings(text, log):
     return out
 
 
+def _io_errors(text, log):
+    """R4 (io part): `io::Error::other(msg)` / `io::Error::new(kind, msg)` -> opaque shim
+    constructors; the kind is kept, the message (possibly a format! call) is dropped."""
+    rx = re.compile(r'\bio::Error::(other|new)\s*\(')
+    pos = 0
+    out = text
+    while True:
+        mask = code_mask(out)
+        m = None
+        for mm in rx.finditer(out, pos):
+            if mask[mm.start()]:
+                m = mm
+                break
+        if not m:
+            return out
+        op = m.end() - 1
+        cl = match_brace(out, mask, op)
+        args = _split_args(out[op + 1:cl])
+        if m.group(1) == 'other':
+            rep = 'io::Error::new_opaque()'
+        else:
+            rep = 'io::Error::new_kind(%s)' % args[0]
+        rep += '\n' * out[m.start():cl + 1].count('\n')
+        log.append(('R4', 'io::Error::%s(..)' % m.group(1), rep.strip()))
+        out = out[:m.start()] + rep + out[cl + 1:]
+        pos = m.start() + len(rep)
+
+
 def apply(text, log, extra_subs=()):
     t = strip_attrs_and_docs(text, log)
     t = _byte_strings(t, log)
@@ -221,6 +253,7 @@ def apply(text, log, extra_subs=()):
             log.append(('R2', rx, rep))
         t = t2
     t = _rewrite_macros(t, log)
+    t = _io_errors(t, log)
     for (rx, rep, why) in extra_subs:
         def _keep_lines(mm, rep=rep):
             return mm.expand(rep) + '\n' * mm.group(0).count('\n')
